@@ -3,6 +3,7 @@ the barrier protocol, and the one-step conformance check against the reference m
 import collections
 import time
 
+from .sut import diagnose as sut_diagnose
 from . import invariants, model as M, wire
 from .model import ANY, parse_modeline
 
@@ -660,6 +661,18 @@ class World:
                                  self.history[-1][1] if self.history else "", exp.shape))
                 self.dead = True
                 return self.violations[V0:]
+            if "barrier timed out" in str(ex):
+                # the whole watchdog period without the monitor's own message coming back: ask the server itself
+                state = sut_diagnose(self.srv, self.tls)
+                if state in ("dead", "hung"):
+                    self.shapes[exp.shape] += 1
+                    self.violate("server-stopped" if state == "dead" else "server-hung", exp.props | {"C05", "C18"},
+                                 exp.shape, "%s after %r: no client is answered any more (a fresh connection waited 8 s "
+                                 "for the answer to its PING)" % ("the server process ended" if state == "dead" else
+                                                                  "the server process is alive but serves nobody",
+                                                                  self.history[-1][1] if self.history else ""))
+                    self.dead = True
+                    return self.violations[V0:]
             raise
         finally:
             self.model.owner = save_owner
